@@ -6,11 +6,13 @@ import json, os, sys
 
 ROOT = os.path.dirname(os.path.dirname(os.path.abspath(__file__)))
 import glob
+# a check is claimed only after its output on the unchanged tree has been reviewed
+ACCEPTED = set(open(os.path.join(ROOT, "accepted.txt")).read().split())
 checks, TEXT = {}, {}
 for f in sorted(glob.glob(os.path.join(ROOT, "checks", "*", "check.json"))):
     d = json.load(open(f))
     pid = os.path.basename(os.path.dirname(f)).upper()
-    if d.get("disabled"):
+    if d.get("disabled") or pid not in ACCEPTED:
         continue
     checks[pid] = d["driver"]
     m = d["manifest"]
